@@ -136,37 +136,19 @@ theorem writers_agree_flat (e : Env) (isDt : Str → Bool) (indent : Option Str)
 
 example : indentOn (some []) = none ∧ indentOn none = none := ⟨rfl, rfl⟩
 
-/-- Full-strength statement ("indentation aside"): up to layout (whitespace-only character runs that
-are not the whole content of a leaf element) the indented stream is the un-indented stream. -/
-def IndentLayoutOnly : Prop :=
-  ∀ (e : Env) (m : NsMap) (isDt : Str → Bool) (ind : Str) (evs : List Ev) (plain : List Sax) (calls : List ISax),
-    ind ≠ [] → ind.all e.isSpace = true →
-    eventsSax m isDt evs = .ok plain → eventsSaxIndent m isDt (some ind) evs = .ok calls →
-    layoutNorm e calls = layoutNorm e (plain.map ISax.sax)
-
-/-- `<m>t<a/></m>` : character data followed by a child element -/
+/-- `<m>t<a/></m>` : character data followed by a child element (the former counterexample) -/
 def mixedWitness : List Ev :=
   [.start "m".toList, .data (.prim (.str "t".toList)), .start "a".toList, .end "a".toList, .end "m".toList]
 
-/-- The full-strength statement is false: with mixed content the indentation is appended to the
-character data (`t` becomes `t\n  `). -/
-theorem indent_mixed_counterexample : ¬ IndentLayoutOnly := by
-  intro h
-  have := h Env.ascii [] (fun _ => false) "  ".toList mixedWitness
-    [.open "m".toList [], .chars "t".toList, .open "a".toList [], .close "a".toList, .close "m".toList]
-    [.sax (.open "m".toList []), .sax (.chars "t".toList), .ws "\n".toList, .ws "  ".toList,
-      .sax (.open "a".toList []), .sax (.close "a".toList), .ws "\n".toList, .ws [],
-      .sax (.close "m".toList), .ws "\n".toList]
-    (by decide) (by decide) rfl rfl
-  revert this
-  decide
-
-/-- **indent_ws_only** (partial: no element has both non-whitespace character data and child
-elements — `mixedFree`). For every event list the indented stream equals the un-indented one up
-to layout whitespace. -/
-theorem indent_ws_only_partial (e : Env) (m : NsMap) (isDt : Str → Bool) (ind : Str) (evs : List Ev)
+/-- **indent_ws_only** (full strength since the native writer writes no indentation right after
+character data; it used to append it: `t` became `t\n  `, former finding C08-indent-mixed).
+"Indentation aside": for every event list whose call stream keeps its character data inside
+elements (`charsInside`, true of every document) and every non-empty whitespace `indent`, the
+indented call stream equals the un-indented one up to layout — whitespace-only character runs that
+are not the whole content of a leaf element.  Mixed content included. -/
+theorem indent_ws_only (e : Env) (m : NsMap) (isDt : Str → Bool) (ind : Str) (evs : List Ev)
     (plain : List Sax) (hne : ind ≠ []) (hW : ind.all e.isSpace = true)
-    (hp : eventsSax m isDt evs = .ok plain) (hm : mixedFree e plain = true) :
+    (hp : eventsSax m isDt evs = .ok plain) (hd : charsInside plain = true) :
     ∃ calls, eventsSaxIndent m isDt (some ind) evs = .ok calls ∧
       layoutNorm e calls = layoutNorm e (plain.map ISax.sax) := by
   obtain ⟨wf, hwf, hout⟩ := eventsSax_ok m isDt evs plain hp
@@ -175,22 +157,33 @@ theorem indent_ws_only_partial (e : Env) (m : NsMap) (isDt : Str → Bool) (ind 
     cases ind with
     | nil => exact absurd rfl hne
     | cons c cs => rfl
-  have hfin : ((normState e (wf.out.map ISax.sax)).flush e false).bad = false := by
-    rw [hout]; simpa [mixedFree] using hm
-  have hbad := flush_bad_mono e _ _ hfin
+  have hbad : (normState e (wf.out.map ISax.sax)).bad = false := by
+    have := bad_feedAll e plain {}
+    rw [hout]
+    unfold charsInside at hd
+    simpa [normState, feedAll, hd] using this
   obtain ⟨sf, hsf, hw, hinv⟩ := run_inv e m isDt (some ind) ind hi hW evs {} (Inv.init e) wf hwf hbad
   refine ⟨sf.out, by unfold eventsSaxIndent; rw [hsf], ?_⟩
   unfold layoutNorm
   rw [← hout, ← hw]
-  exact hinv.sim.finish (by rw [hw]; exact hfin)
+  exact hinv.sim.finish
 
 example : "  ".toList ≠ [] ∧ "  ".toList.all Env.ascii.isSpace = true ∧ "\t".toList.all Env.ascii.isSpace = true := by
   decide
 
-/-- non-vacuity: `<r><a>x</a><b> </b></r>` is free of mixed content and is indented -/
-example : mixedFree Env.ascii
-    [.open "r".toList [], .open "a".toList [], .chars "x".toList, .close "a".toList,
-     .open "b".toList [], .chars " ".toList, .close "b".toList, .close "r".toList] = true := by decide
+/-- non-vacuity: mixed content `<m>t<a/>u</m>` keeps its character data inside elements … -/
+example : charsInside
+    [.open "m".toList [], .chars "t".toList, .open "a".toList [], .close "a".toList, .chars "u".toList,
+     .close "m".toList] = true := by decide
+
+/-- … and a stream with character data after the root element does not -/
+example : charsInside [.open "m".toList [], .close "m".toList, .chars "x".toList] = false := by decide
+
+/-- the former counterexample: no layout after `t`, the document is `<m>t<a/>\n</m>\n` — what lxml's
+`indent` makes of it -/
+example : eventsSaxIndent [] (fun _ => false) (some "  ".toList) mixedWitness
+    = .ok [.sax (.open "m".toList []), .sax (.chars "t".toList), .sax (.open "a".toList []),
+           .sax (.close "a".toList), .ws "\n".toList, .ws [], .sax (.close "m".toList), .ws "\n".toList] := rfl
 
 example : eventsSaxIndent [] (fun _ => false) (some "  ".toList)
     [.start "r".toList, .start "a".toList, .data (.prim (.str "x".toList)), .end "a".toList, .end "r".toList]
